@@ -10,9 +10,11 @@ pub fn check_layout(module: &Module) -> Result<(), LayoutError> {
 
     for global in &module.global_registry {
         // An array of buffers has the same element layout as a single buffer
-        let ty = module.type_registry.remove_modifier(global.type_id);
-        let ty = module.type_registry.get_non_array_id(ty);
-        let ty = module.type_registry.remove_modifier(ty);
+        // A typedef of an array may put modifiers between the array layers
+        let mut ty = module.type_registry.remove_modifier(global.type_id);
+        while let TypeLayer::Array(inner, _) = module.type_registry.get_type_layer(ty) {
+            ty = module.type_registry.remove_modifier(inner);
+        }
         let tyl = module.type_registry.get_type_layer(ty);
         let o = match tyl {
             TypeLayer::Object(o) => o,
